@@ -212,9 +212,17 @@ func runC08(c *Ctx) {
 	c08Terminator(c)
 
 	// R-C08-4
-	if sch := c.needMethod("R-C08-4", "internal/corerad", "Advertiser", "schedule"); sch != nil {
+	scheduleExits(c, "R-C08-4")
+	scheduledOnly(c, "R-C08-4")
+	signalOrder(c, "R-C08-3")
+}
+
+// scheduleExits: every exit of schedule() waits for the scheduled-task group;
+// the worker-error arm cancels first, waits, and returns the worker's error.
+func scheduleExits(c *Ctx, rule string) {
+	if sch := c.needMethod(rule, "internal/corerad", "Advertiser", "schedule"); sch != nil {
 		fn := c.fname(sch)
-		ps := c.pathsO("R-C08-4", sch, an.PathOpts{EmitCut: true})
+		ps := c.pathsO(rule, sch, an.PathOpts{EmitCut: true})
 		n := 0
 		for _, p := range ps {
 			if p.Ret == nil {
@@ -254,13 +262,62 @@ func runC08(c *Ctx) {
 			if arm == "error" {
 				okErr = len(p.Results) == 1 && p.Results[0].Op == an.OpRecv
 			}
-			c.R.Check(s == want && okErr, "R-C08-4", fmt.Sprintf("%s:exit@%s-arm:%s", fn, arm, lastAtomName(p)), fn, c.pos(p.Ret.Pos()),
+			c.R.Check(s == want && okErr, rule, fmt.Sprintf("%s:exit@%s-arm:%s", fn, arm, lastAtomName(p)), fn, c.pos(p.Ret.Pos()),
 				fmt.Sprintf("calls before return=[%s], returns %v", s, exprStrings(p.Results)),
 				"every exit waits for the scheduled-task group; a worker error cancels first, waits, and is returned",
 				"schedule returns while delayed transmissions may still fire")
 		}
-		c.R.Check(n >= 3, "R-C08-4", fn+":exits", fn, c.pos(sch.Pos()), fmt.Sprintf("%d return path(s)", n), ">= 3", "anchor-missing")
+		c.R.Check(n >= 3, rule, fn+":exits", fn, c.pos(sch.Pos()), fmt.Sprintf("%d return path(s)", n), ">= 3", "anchor-missing")
 	}
+}
+
+// scheduledOnly: every transmission by a worker is scheduled through the
+// schedgroup that schedule() creates from its own cancelable context and
+// waits for on exit — nothing can fire after schedule has returned.
+func scheduledOnly(c *Ctx, rule string) {
+	sch := c.P.Method("internal/corerad", "Advertiser", "schedule")
+	if sch == nil {
+		return
+	}
+	n := 0
+	for _, cl := range sch.AnonFuncs {
+		calls := false
+		for _, ci := range an.CallsIn(cl) {
+			if an.CallIs(ci.Common(), PkgCorerad, "Advertiser", "sendWorker") || an.CallIs(ci.Common(), PkgCorerad, "Advertiser", "send") {
+				calls = true
+			}
+		}
+		if !calls {
+			continue
+		}
+		n++
+		ok := false
+		fact := "closure not handed to the scheduler"
+		if site, isMC := closureSite(sch, cl).(*ssa.MakeClosure); isMC && site.Referrers() != nil {
+			for _, r := range *site.Referrers() {
+				ci, isCall := r.(ssa.CallInstruction)
+				if !isCall {
+					continue
+				}
+				f := an.CalleeObj(ci.Common())
+				if f != nil && f.Name() == "Delay" && f.Pkg() != nil && f.Pkg().Path() == "github.com/mdlayher/schedgroup" {
+					grp := c.XO.Of(ci.Common().Args[0])
+					okGrp := grp.Op == an.OpCall && grp.Fn != nil && grp.Fn.String() == "github.com/mdlayher/schedgroup.New" && len(grp.Args) == 1 &&
+						grp.Args[0].Contains(func(e *an.Expr) bool {
+							return e.Op == an.OpCall && e.Fn != nil && e.Fn.String() == "context.WithCancel"
+						})
+					ok = okGrp
+					fact = "scheduled with " + f.FullName() + " on " + grp.String()
+				} else if f != nil {
+					fact = "closure passed to " + f.FullName()
+				}
+			}
+		}
+		c.R.Check(ok, rule, c.fname(cl)+":scheduled-on-waited-group", c.fname(cl), c.pos(cl.Pos()), fact,
+			"worker closures run only as schedgroup tasks of the group bound to schedule()'s cancelable context (which every exit waits for)",
+			"a pending transmission is not bound to the scheduler: it can fire after the final RA and after Run has returned")
+	}
+	c.R.Check(n >= 2, rule, c.fname(sch)+":worker-closures", c.fname(sch), c.pos(sch.Pos()), fmt.Sprintf("%d worker closure(s)", n), ">= 2 (unicast, multicast)", "anchor-missing")
 }
 
 type selArmInfo struct {
